@@ -329,10 +329,16 @@ func (env *Env) quant(n *EQuant) Val {
 		*env.qn++
 		var t types.Type
 		var sort Sort
+		region := ""
 		if qv.Type == "set" {
 			t, sort = setType, ArrSort(SBool)
 		} else {
-			t = env.pkg.resolveType(qv.Type)
+			tt := qv.Type
+			if k := strings.Index(tt, "@"); k >= 0 {
+				region = strings.TrimSpace(tt[k+1:])
+				tt = strings.TrimSpace(tt[:k])
+			}
+			t = env.pkg.resolveType(tt)
 			cs := comps(t)
 			if len(cs) != 1 {
 				sfail("quantified variable %s of multi-component type %s", qv.Name, qv.Type)
@@ -341,7 +347,7 @@ func (env *Env) quant(n *EQuant) Val {
 		}
 		v := Term{fmt.Sprintf("q!%s!%d", qv.Name, *env.qn), sort}
 		vars = append(vars, v)
-		c.vars[qv.Name] = Val{Typ: t, C: []Term{v}}
+		c.vars[qv.Name] = Val{Typ: t, C: []Term{v}, Region: region}
 		if t != setType {
 			guards = append(guards, typeConstraint(t, []Term{v}))
 		}
@@ -446,6 +452,10 @@ func (env *Env) call(n *ECall) Val {
 	case "sent":
 		r, m := arg(0), arg(1)
 		a := env.st.heapGet("ghost.sent", ArrSort(ArrSort(SInt)))
+		return intVal(Select(Select(a, r.T()), m.T()))
+	case "delivered":
+		r, m := arg(0), arg(1)
+		a := env.st.heapGet("ghost.delivered", ArrSort(ArrSort(SInt)))
 		return intVal(Select(Select(a, r.T()), m.T()))
 	case "once_done":
 		p := arg(0)
@@ -552,8 +562,8 @@ func msgBody(msg Val) Term {
 
 // mapContentsEq: map m (in st1) and mo (in st2) have identical entries.
 func (env *Env) mapContentsEq(st1 *State, m Val, st2 *State, mo Val) Term {
-	a1 := st1.mapArrays(m.Typ)
-	a2 := st2.mapArrays(mo.Typ)
+	a1 := st1.mapArrays(m)
+	a2 := st2.mapArrays(mo)
 	eqs := []Term{Eq(Select(a1.dom, m.T()), Select(a2.dom, mo.T())), Eq(Select(a1.card, m.T()), Select(a2.card, mo.T()))}
 	for i := range a1.vals {
 		eqs = append(eqs, Eq(Select(a1.vals[i], m.T()), Select(a2.vals[i], mo.T())))
